@@ -1616,14 +1616,17 @@ impl<'a, 'b> InternalDelphiLogicalLineParser<'a, 'b> {
     }
     fn parse_expression(&mut self) {
         match self.get_current_token_type() {
-            Some(TT::Op(OK::LParen | OK::LBrack)) => self.skip_pair(),
+            // An argument list can contain anonymous routines
+            Some(TT::Op(OK::LParen)) => self.parse_parens(),
+            Some(TT::Op(OK::LBrack)) => self.skip_pair(),
             Some(TT::Op(OK::Semicolon | OK::Colon)) => return,
             Some(token_type @ TT::Keyword(_)) if !is_operator(token_type) => return,
             _ => self.next_token(),
         };
         loop {
             match self.get_current_token_type() {
-                Some(TT::Op(OK::LParen | OK::LBrack)) => self.skip_pair(),
+                Some(TT::Op(OK::LParen)) => self.parse_parens(),
+                Some(TT::Op(OK::LBrack)) => self.skip_pair(),
                 Some(TT::Op(OK::Caret(_))) => {
                     self.next_token();
                     return;
